@@ -336,19 +336,27 @@ class UnitHyps:
         self.lead[names[0]] = (tuple(names[1:]), tuple(q))
         return True
 
+    def add_sign(self, v):
+        """a scalar with v*v = 1 (sign variable)"""
+        n = v.decl().name()
+        if n not in self.lead:
+            self.lead[n] = ((), (v,))
+
     def reduce(self, p, conv):
         """returns (p', cof) with p = p' + sum_w cof[w] * (w^2 + x^2 + y^2 + z^2 - 1)"""
         cof = {}
         cur = p
         present = cur.var_indices()
-        for w, ((x, y, z), _) in self.lead.items():
+        for w, (xyz, _) in self.lead.items():
             iw = conv.index.get(w)
             if iw is None or iw not in present:
                 continue
             sh = BITS * iw
             if not any((m >> sh) & MASK >= 2 for m in cur.t):
                 continue
-            rep = Poly.const(1) - Poly.var(conv.idx(x)) ** 2 - Poly.var(conv.idx(y)) ** 2 - Poly.var(conv.idx(z)) ** 2
+            rep = Poly.const(1)
+            for other in xyz:
+                rep = rep - Poly.var(conv.idx(other)) ** 2
             c_tot = Poly()
             while True:
                 keep, high = {}, {}
@@ -371,7 +379,10 @@ class UnitHyps:
 
     def gen_z3(self, w):
         q = self.lead[w][1]
-        return q[0] * q[0] + q[1] * q[1] + q[2] * q[2] + q[3] * q[3] - 1
+        r = q[0] * q[0]
+        for v in q[1:]:
+            r = r + v * v
+        return r - 1
 
 
 def unit_hyps_of(ctx):
